@@ -405,6 +405,13 @@ int aws_base64_decode(const struct aws_byte_cursor *AWS_RESTRICT to_decode, stru
             return aws_raise_error(AWS_ERROR_INVALID_BASE64_STR);
         }
 
+        /* the bits of the last character that do not end up in the output must be zero,
+         * as in the vectorized decoder, so that both accept exactly the canonical encodings */
+        if ((value3 == BASE64_SENTINEL_VALUE && (value2 & 0x0F)) ||
+            (value3 != BASE64_SENTINEL_VALUE && value4 == BASE64_SENTINEL_VALUE && (value3 & 0x03))) {
+            return aws_raise_error(AWS_ERROR_INVALID_BASE64_STR);
+        }
+
         output->buffer[buffer_index++] = (uint8_t)((value1 << 2) | ((value2 >> 4) & 0x03));
 
         if (value3 != BASE64_SENTINEL_VALUE) {
